@@ -93,9 +93,15 @@ EventRulesOK(o) ==
             IF ToCand(o, 2) \in SoundCands(cfg.s, cfg.e) THEN TRUE
             ELSE Report("REJECT", "the prefilter's answer " \o ToString(ToCand(o, 2)) \o " is unsound for the span")
       [] o[1] = "Q" ->
-            IF o[2] >= cfg.s /\ o[2] <= cfg.e /\ ToCand(o, 3) \in SoundCands(o[2], cfg.e) THEN TRUE
-            ELSE Report("REJECT", "the prefilter's answer " \o ToString(ToCand(o, 3)) \o " from offset "
-                                  \o ToString(o[2]) \o " is unsound")
+            \* the prefilter is asked about what lies AHEAD: its span starts at the byte just consumed
+            \* (from which the start state was re-entered) or later, never before it
+            /\ IF o[2] >= lastT THEN TRUE
+               ELSE Report("REJECT", "the prefilter was asked about a span starting at offset " \o ToString(o[2])
+                                     \o " although the search had advanced to offset " \o ToString(lastT)
+                                     \o ": the search does not advance monotonically")
+            /\ IF o[2] >= cfg.s /\ o[2] <= cfg.e /\ ToCand(o, 3) \in SoundCands(o[2], cfg.e) THEN TRUE
+               ELSE Report("REJECT", "the prefilter's answer " \o ToString(ToCand(o, 3)) \o " from offset "
+                                     \o ToString(o[2]) \o " is unsound")
       [] OTHER -> TRUE
 
 (* --------------------- following ACSearch's actions --------------------- *)
